@@ -8,6 +8,29 @@ import EasyMl.Lemmas.DetHeaps
 
 namespace EasyMl
 
+/-! ### sequences of appends -/
+
+namespace C18
+
+/-- one append request: what is appended never matters for where it lands -/
+inductive Append (R : Type) where
+  | nullary
+  | unary (parent : Nat) (derivative : R)
+  | binary (leftParent : Nat) (leftDerivative : R) (rightParent : Nat) (rightDerivative : R)
+
+/-- run a sequence of appends on a tape: the positions handed out and the final tape -/
+def appendAll {R : Type} [Zero R] : Tape R → List (Append R) → List Nat × Tape R
+  | t, [] => ([], t)
+  | t, a :: rest =>
+    let r := match a with
+      | .nullary => t.appendNullary
+      | .unary p d => t.appendUnary p d
+      | .binary lp ld rp rd => t.appendBinary lp ld rp rd
+    let rr := appendAll r.2 rest
+    (r.1 :: rr.1, rr.2)
+
+end C18
+
 /-! ### a computation recorded after `k` unrelated entries -/
 
 section Shift
